@@ -204,14 +204,16 @@ ScriptTwo == <<SA("create", 1), SA("create", 2), SA("define", 1), SA("define", 2
 ScriptOne == <<SA("create", 1), SA("define", 1), SA("parse", 1), SA("define", 1), SA("parse", 1), SA("parse", 1)>>
 SF(w) == [op |-> "set", s |-> 1, which |-> w]
 (* one object: every combination of the three result-selecting flags, a parse, every flag read back through its setter, another parse *)
-ScriptFlags == <<SA("create", 1), SF("one"), SF("cost"), SF("rec"), SA("define", 1), SA("parse", 1), SF("one"), SF("cost"), SF("rec"), SA("parse", 1)>>
+SG(w) == [op |-> "get", s |-> 1, which |-> w]       \* read a flag back: the setter called with 1 returns the previous value
+ScriptFlags == <<SA("create", 1), SF("one"), SF("cost"), SF("rec"), SA("define", 1), SA("parse", 1), SG("one"), SG("cost"), SG("rec"), SA("parse", 1)>>
 ScriptStep(script) ==
   LET i == Len(hist) + 1 IN
   /\ i <= Len(script)
   /\ LET e == script[i] IN
        \/ e.op = "create" /\ Create(e.s)
        \/ e.op = "free" /\ Free(e.s)
-       \/ e.op = "set" /\ \E v \in {0, 1} : SetFlag(e.s, e.which, v)
+       \/ e.op = "set" /\ \E v \in {0, 1, 2} : SetFlag(e.s, e.which, v)      \* 2: any non-zero value means "on" and is handed back as it is
+       \/ e.op = "get" /\ SetFlag(e.s, e.which, 1)
        \/ e.op = "define" /\ \E d \in ScriptDefs : Define(e.s, d, FALSE, FALSE)
        \/ e.op = "parse" /\ \E w \in ScriptInputs : Parse(e.s, w, "ff")
 ScriptFinish(script) ==
